@@ -1385,6 +1385,10 @@ class Engine(object):
 
     action_name = doc_action.__class__.__name__
     saved_schema = None
+    if getattr(doc_action, 'table_id', None) in ('_grist_Tables', '_grist_Tables_column'):
+      # Record actions on the metadata that describe the schema must leave it consistent with
+      # the engine's schema too: check at the end of the user action (and roll back if not).
+      self._schema_updated = True
     if action_name in actions.schema_actions:
       self._schema_updated = True
       # Make a copy of the schema. If a bug causes a docaction to fail after modifying schema, we
